@@ -45,7 +45,9 @@ KERNELS_OF = {
     "C01": ["insert_unchecked_cmds", "push_unchecked_cmds", "clear_cmds", "pop_consume_cmds", "remove_consume_cmds",
             "swap_remove_consume_cmds"],
     "C02": ["into_range", "drain_drop_cmds", "move_elements_at_cmds", "splice_drop_pre_cmds", "splice_drop_post_cmds"],
-    "C03": ["drop_elements_range_cmds", "temp_drop_cmds", "clear_cmds", "pop_new", "remove_new", "swap_remove_new"],
+    "C03": ["drop_elements_range_cmds", "temp_drop_cmds", "clear_cmds", "pop_new", "remove_new", "swap_remove_new", "drop_fn_cmds"],
+    "C08": ["clone_cmds", "clone_fn_cmds", "raw_clone_empty_in_fields", "raw_clone_empty_fields", "anyvec_clone_empty_fields",
+            "anyvec_clone_empty_in_fields", "anyvec_clone_fields"],
     "C10": ["reserve", "reserve_exact", "shrink_to_fit", "shrink_to", "heap_expand", "expand_exact_default"],
     "C11": ["stack_build", "stackn_build", "stackn_size", "reserve_one", "expand_one"],
     "C14": ["iter_len", "iter_next", "iter_next_back", "iter_clone"],
